@@ -103,13 +103,13 @@ def check_one(ctx, src, scopes, config, case):
                 from pico8 import tool
                 from .. import refcodec as rc, carts
                 regions, _ = carts.random_regions(ctx.rng, 'zero')
-                p1 = os.path.join(tmpd, 'h.p8')
+                p1 = os.path.join(tmpd, ambient.BASE[0] + '.p8')
                 with open(p1, 'wb') as fh:
                     fh.write(rc.write_p8(regions, src, version=8))
                 argv = [ambient.vflag(), 'luamin'] + (['--keep-names-from-file', keep_file] if config == 'cli_keep_file' else []) + [p1]
                 if tool.main(argv):
                     raise RuntimeError('p8tool luamin failed')
-                out = rc.read_p8(open(os.path.join(tmpd, 'h_fmt.p8'), 'rb').read())['code']
+                out = rc.read_p8(open(os.path.join(tmpd, ambient.BASE[0] + '_fmt.p8'), 'rb').read())['code']
                 if not src.endswith(b'\n') and out.endswith(b'\n'):
                     out = out[:-1] if not out[:-1].endswith(b'\n') or True else out
                 ctx.monitor('cli_runs')
